@@ -84,7 +84,7 @@ func paramAnnotation(pr Param) (text string, valueCol int) {
 	var sb strings.Builder
 	sb.WriteString("// @" + name + "(")
 	valueCol = runeLen(sb.String())
-	sb.WriteString(pr.GoName)
+	sb.WriteString(pr.AnnValue())
 	var props []string
 	if pr.Wire != "" {
 		props = append(props, "name: "+jsonStr(pr.Wire))
@@ -356,7 +356,7 @@ func (p *Project) Render(opts RenderOpts) *Rendered {
 					}
 					text, vcol := paramAnnotation(pr)
 					ln := b.line(text)
-					mark("ann/"+annName+":"+pr.GoName+"/value", ln, vcol, vcol+runeLen(pr.GoName))
+					mark("ann/"+annName+":"+pr.GoName+"/value", ln, vcol, vcol+runeLen(pr.AnnValue()))
 					mark("ann/"+annName+":"+pr.GoName+"/line", ln, 0, runeLen(text))
 				}
 				for i, s := range m.Security {
@@ -449,6 +449,12 @@ func (p *Project) Render(opts RenderOpts) *Rendered {
 		b := &fileBuilder{path: path}
 		b.line("package " + fa.pkg.Name)
 		b.line("")
+		var sb strings.Builder
+		writeImports(&sb, fa.imports, nil)
+		for _, il := range strings.Split(strings.TrimRight(sb.String(), "\n"), "\n") {
+			b.line(il)
+		}
+		b.line("")
 		for i := 0; i < opts.LeadingNoise; i++ {
 			if i%2 == 0 {
 				b.line("// noise: ünïcödé — 日本語 🙂 @NotAnAnnotation(x)")
@@ -458,15 +464,14 @@ func (p *Project) Render(opts RenderOpts) *Rendered {
 		}
 		if opts.LeadingNoise > 0 {
 			b.line("")
-			b.line("var _ = 0")
+			b.line("var _noise_" + strings.Map(func(r rune) rune {
+				if r >= 'a' && r <= 'z' || r >= '0' && r <= '9' {
+					return r
+				}
+				return '_'
+			}, filepath.Base(path)) + " = 0")
 			b.line("")
 		}
-		var sb strings.Builder
-		writeImports(&sb, fa.imports, nil)
-		for _, il := range strings.Split(strings.TrimRight(sb.String(), "\n"), "\n") {
-			b.line(il)
-		}
-		b.line("")
 		for _, ch := range fa.chunks {
 			ch(b)
 		}
